@@ -15,7 +15,8 @@ Q = 10000
 PLACES = [(1.0, (0.0, 0.0, 0.0)), (1.0, (4101.0, -3077.0, 5113.0)), (10.1, (-25.3, -31.7, -20.9))]
 
 
-FAR = (0.5, (12011.3, -9077.7, 15113.1))
+# atlas coordinates with quarters and eighths: at half-unit lattice steps every node, and every point resampled at a whole lattice step, is still exact
+FAR = (0.5, (12011.25, -9077.75, 15113.125))
 
 
 def place_of(c):
@@ -35,14 +36,7 @@ def mk_tree(c, pl=None):
 
 def qpts(obj, pl=(1.0, (0.0, 0.0, 0.0))):
     u, off = pl
-    snap = pl is FAR
-
-    def q(v, o):
-        w = (float(v) - o) / u
-        if snap and abs(w - round(w)) < 0.02:
-            w = round(w)                  # far from the origin single precision leaves a residue of a few thousandths
-        return int(round(w * Q))
-    return [[q(v, o) for v, o in zip(row, off + (0.0,))] for row in zip(obj.x(), obj.y(), obj.z(), obj.r())]
+    return [[int(round((float(v) - o) / u * Q)) for v, o in zip(row, off + (0.0,))] for row in zip(obj.x(), obj.y(), obj.z(), obj.r())]
 
 
 def tree_result(fn, pl):
@@ -69,7 +63,7 @@ def execute(c):
     from swcgeom.transforms.branch import BranchIsometricResampler
     from swcgeom.transforms.branch_tree import BranchTreeAssembler
     pl = place_of(c)
-    if pl[0] != 1.0:
+    if pl[0] != 1.0 and pl is not FAR:
         # with an inexact unit a branch whose length is a whole number of spacings is a floating-point tie (one point more or less): such trees
         # keep the exact placement
         lens = [int(round(float(b.length()))) for b in mk_tree(c).get_branches()]
@@ -132,6 +126,14 @@ def extra_cases(ctx, count):
             continue                            # root and tip coincide: outside the judged domain (see assumptions)
         sp = rng.choice([[1, 2], [1, 1], [3, 2], [2, 1], [1, 4], [5, 2], [10, 1]])
         out.append({"kind": "tree", "P": P, "pos": pos, "rad": rad, "sp": sp, "adjust": k % 3 != 0, "rtype": 1 + k % 4, "win": 1 + k % 7, "n": 2 + k % 6})
+    # a comb far from the origin: a spine with a twig at every node (sibling ends two lattice steps apart), resampled at the lattice step; which branch
+    # ends at which node must not be decided by single-precision cancellation
+    m = 20
+    P = [-1] + [(0 if j == 1 else (j - 2 if j % 2 == 1 else j - 1)) for j in range(1, 2 * m + 1)]
+    pos = [[0, 0, 0]]
+    for k in range(1, m + 1):
+        pos.append([2 * k, 0, 0]); pos.append([2 * k, 2 if k % 2 else -2, 0])
+    out.append({"kind": "tree", "P": P, "pos": pos, "rad": [1] * len(P), "sp": [1, 1], "adjust": True, "rtype": 1, "win": 3, "n": 3, "far": 1})
     return out
 
 
